@@ -281,6 +281,8 @@ type Result struct {
 	TapSkipped  string   `json:"tap_skipped,omitempty"`
 	SSRCChecked int      `json:"ssrc_checked"`
 	Segments    int      `json:"segments"`
+	// TunnelRetries counts HTTP-tunnel handshakes repeated because of the GET/POST registration race.
+	TunnelRetries int `json:"http_tunnel_handshake_retries"`
 }
 
 // ---------------------------------------------------------------- world
@@ -332,6 +334,66 @@ func (w *world) call(name string, f func() error) error {
 	case <-time.After(3 * sysx.HangLimit):
 		w.hung = name
 		return fmt.Errorf("%s: %w", name, errHang)
+	}
+}
+
+var errTunnelRace = errors.New("HTTP tunnel handshake race")
+
+// tunnelRaced reports whether the server refused the POST channel of an HTTP tunnel because the GET channel
+// of the same tunnel was not registered yet: server_conn_reader.go writes the GET response (line 154) before
+// it registers the channel (line 161), so a fast client's POST can overtake the registration. That race is
+// outside this property; the harness retries the handshake with a new client and counts it.
+func (w *world) tunnelRaced(from int) bool {
+	evs := w.env.Log.Snapshot()
+	for _, e := range evs[min(from, len(evs)):] {
+		if e.Kind == "conn-close" && e.Err != nil && strings.Contains(e.Err.Error(), "corresponding HTTP") {
+			return true
+		}
+	}
+	return false
+}
+
+// callClient is call for a client's connection phase: it also watches for the tunnel race and then aborts the
+// attempt by closing the client.
+func (w *world) callClient(name, tr string, from int, c *gortsplib.Client, f func() error) error {
+	if tr != tHTTP {
+		return w.call(name, f)
+	}
+	ch := make(chan error, 1)
+	go func() {
+		defer func() {
+			if r := recover(); r != nil {
+				ch <- fmt.Errorf("panic: %v", r)
+			}
+		}()
+		ch <- f()
+	}()
+	deadline := time.After(3 * sysx.HangLimit)
+	tick := time.NewTicker(2 * time.Millisecond)
+	defer tick.Stop()
+	for {
+		select {
+		case err := <-ch:
+			if err != nil && w.tunnelRaced(from) {
+				return errTunnelRace
+			}
+			return err
+		case <-tick.C:
+			if w.tunnelRaced(from) {
+				go func() {
+					defer func() { recover() }() //nolint:errcheck
+					c.Close()
+				}()
+				select {
+				case <-ch:
+				case <-time.After(sysx.HangLimit):
+				}
+				return errTunnelRace
+			}
+		case <-deadline:
+			w.hung = name
+			return fmt.Errorf("%s: %w", name, errHang)
+		}
 	}
 }
 
@@ -442,10 +504,20 @@ func newWorld(cs Case) (*world, error) {
 		w.app.Relay = true
 		pdesc, _ := shapeDesc(w.cfg.Shape, w.cfg.Secure)
 		w.sdesc = pdesc
-		w.pub = w.newClient(w.cfg.Pub, "publisher", func(c *memnet.Conn) { w.pubConn = append(w.pubConn, c) }, nil)
-		err = w.call("publisher StartRecording", func() error {
-			return w.pub.StartRecording(w.scheme()+"://127.0.0.1:8554/stream", pdesc)
-		})
+		for attempt := 0; ; attempt++ {
+			pdesc, _ = shapeDesc(w.cfg.Shape, w.cfg.Secure)
+			w.sdesc = pdesc
+			from := len(w.env.Log.Snapshot())
+			w.pub = w.newClient(w.cfg.Pub, "publisher", func(c *memnet.Conn) { w.pubConn = append(w.pubConn, c) }, nil)
+			err = w.callClient("publisher StartRecording", w.cfg.Pub, from, w.pub, func() error {
+				return w.pub.StartRecording(w.scheme()+"://127.0.0.1:8554/stream", pdesc)
+			})
+			if errors.Is(err, errTunnelRace) && attempt < 5 {
+				w.res.TunnelRetries++
+				continue
+			}
+			break
+		}
 		if err != nil {
 			w.pub = nil
 			return w, fmt.Errorf("publisher: %w", err)
@@ -516,8 +588,24 @@ func (w *world) reader(i int) *reader {
 }
 
 func (w *world) join(r *reader) error {
+	for attempt := 0; ; attempt++ {
+		err := w.joinOnce(r)
+		if errors.Is(err, errTunnelRace) && attempt < 5 {
+			w.res.TunnelRetries++
+			r.mu.Lock()
+			r.conns, r.got, r.tags, r.derrs = nil, nil, map[uint64]bool{}, nil
+			r.mu.Unlock()
+			r.announced, r.chans, r.ports = map[int]*uint32{}, map[int][2]int{}, map[int][2]int{}
+			continue
+		}
+		return err
+	}
+}
+
+func (w *world) joinOnce(r *reader) error {
+	from := len(w.env.Log.Snapshot())
 	r.c = w.newClient(r.tr, fmt.Sprintf("reader%d", r.id), func(c *memnet.Conn) { r.mu.Lock(); r.conns = append(r.conns, c); r.mu.Unlock() }, r)
-	return w.call("join", func() error {
+	return w.callClient("join", r.tr, from, r.c, func() error {
 		if err := r.c.Start(); err != nil {
 			return fmt.Errorf("start: %w", err)
 		}
